@@ -10,7 +10,13 @@ use std::io::Write;
 use std::path::{Path, PathBuf};
 use std::sync::Mutex;
 
-pub const VERIF_DIR: &str = "/verif";
+/// root of the verification machinery (the directory that holds `check`); `./check` exports VERIF_DIR
+pub fn verif_dir() -> PathBuf {
+    std::env::var("VERIF_DIR").map(PathBuf::from).unwrap_or_else(|_| PathBuf::from("/verif"))
+}
+pub fn adlt_bin() -> PathBuf {
+    verif_dir().join("harness/target/adlt-bin/release/adlt")
+}
 
 #[derive(Clone, Copy, PartialEq, Eq, Debug)]
 pub enum Tier {
@@ -372,7 +378,7 @@ pub struct KnownFinding {
 }
 
 pub fn load_known_findings() -> Vec<KnownFinding> {
-    let p = Path::new(VERIF_DIR).join("known_findings.json");
+    let p = verif_dir().join("known_findings.json");
     match std::fs::read(&p) {
         Ok(b) => serde_json::from_slice(&b).expect("known_findings.json invalid"),
         Err(_) => vec![],
@@ -503,7 +509,7 @@ pub struct RunSummary {
 }
 
 pub fn work_dir() -> PathBuf {
-    let p = Path::new(VERIF_DIR).join("harness/target/work");
+    let p = verif_dir().join("harness/target/work");
     let _ = std::fs::create_dir_all(&p);
     p
 }
@@ -520,7 +526,7 @@ fn self_exe() -> PathBuf {
 }
 
 pub fn write_replay(r: &ReplayFile) -> PathBuf {
-    let dir = Path::new(VERIF_DIR).join("replays");
+    let dir = verif_dir().join("replays");
     let _ = std::fs::create_dir_all(&dir);
     let p = dir.join(format!(
         "{}_{}_{}_{}.json",
@@ -777,7 +783,7 @@ pub fn write_evidence(
         "wall_s": wall_s,
         "violations": summary.violations.len(),
     });
-    let dir = Path::new(VERIF_DIR).join("evidence");
+    let dir = verif_dir().join("evidence");
     let _ = std::fs::create_dir_all(&dir);
     let p = dir.join(format!("{}.json", prop));
     let tmp = dir.join(format!("{}.json.tmp", prop));
